@@ -4,7 +4,7 @@
    transaction (rejected: nothing delivered), the extended child store's event for a parent entity
    without extension data, listener filtering, delivered states; the pinned Db.Batch is refuted. *)
 From Coq Require Import List NArith Bool.
-From Storage Require Import Base.Bytes Store.Model Store.Events Store.EventProofs.
+From Storage Require Import Base.Bytes Store.Model Store.Events Store.EventProofs Store.EventAnyProofs.
 Import ListNotations.
 Open Scope N_scope.
 
@@ -196,3 +196,33 @@ Example batch_legacy_refuted :
   let o := run_tx_v_batch_legacy casc_schema 16 st3 tx4 in
   to_committed o = true /\ to_tx_complete o <> (if to_committed o then 1 else 0)%nat.
 Proof. vm_compute. split; [reflexivity | discriminate]. Qed.
+
+(* ---- a self-referential tree with cascade delete: outside wf_events_b, inside wf_events0_b ---- *)
+Definition n_node : name := [110].
+Definition n_up : name := [117;112].
+Definition n_kids : name := [107;105;100;115].
+Definition tree_schema : schema :=
+  [ mkSdef n_node None false [(n_up, true)] [] [CFkIndex n_up n_node n_kids true; CFkCascade n_node n_up CascDelete] [] ].
+Definition mk_node (i : id) (up : option str) : op := OCreate n_node i false [(n_up, up)] [].
+Definition tree_st : state :=
+  run_txs tree_schema 16 st_empty [mkTx false [] [mk_node [1] None; mk_node [2] (Some [1]); mk_node [3] (Some [2]); mk_node [4] (Some [1])] false].
+
+Example tree_schema_wf0 : wf_events0_b tree_schema = true /\ wf_events_b tree_schema [(n_node, 0%nat)] = false.
+Proof. vm_compute. split; reflexivity. Qed.
+
+(* deleting the root removes the whole tree; each node is announced (here exactly once) *)
+Example tree_cascade_delete :
+  match run_tx tree_schema 16 tree_st (mkTx false [] [ODelete n_node [1]] false) with
+  | (rs, committed, st', evs) =>
+      rs = [None] /\ committed = true /\ ids_of st' n_node = [] /\
+      evs = [ev n_node Deleted [3] false; ev n_node Deleted [2] false; ev n_node Deleted [4] false; ev n_node Deleted [1] false]
+  end.
+Proof. vm_compute. repeat split; reflexivity. Qed.
+
+(* a reference cycle: the machine runs out of fuel (boltz reports the cycle), nothing is delivered *)
+Example tree_cycle_nothing_delivered :
+  let st := run_txs tree_schema 16 tree_st [mkTx false [] [OUpdate n_node [1] [(n_up, Some [3])] [] None] false] in
+  match run_tx tree_schema 16 st (mkTx false [] [ODelete n_node [1]] false) with
+  | (rs, committed, _, evs) => committed = false /\ evs = []
+  end.
+Proof. vm_compute. split; reflexivity. Qed.
